@@ -134,6 +134,7 @@ def make_rsa(rng, clsmap):
 def make_ec(rng, clsmap):
   arts = {}
   close_d = None
+  far_d = None
   for slot in sorted(clsmap):
     c = clsmap[slot]
     if c == 'healthy':
@@ -173,6 +174,21 @@ def make_ec(rng, clsmap):
       a = gen.ec_key(rng, slot, 'secp256r1', d=j * t + sign * (T - 1), cls='weakprivate')
       a.meta['crit'] = dict(a.meta['crit'], CheckWeakECPrivateKey='must')
       arts[slot] = a
+    elif c.startswith('weakprivatestep') and c[15:].isdigit():
+      # a 32-bit private value that is an EXACT multiple of the giant step when b keys of secp256r1 are searched together
+      # (the difference point is the point at infinity at that step)
+      import math
+      b_ = int(c[15:])
+      t = 2 * math.isqrt(2 ** 32 * 36 * b_) - 1
+      a = gen.ec_key(rng, slot, 'secp256r1', d=t * rng.randrange(1, (2 ** 32 - 1) // t), cls='weakprivate')
+      a.meta['crit'] = dict(a.meta['crit'], CheckWeakECPrivateKey='must')
+      arts[slot] = a
+    elif c in ('farA', 'farB'):
+      # two keys whose private values differ by more than the quick tier's max_diff (2^12) but by less than the baby-step table
+      # a search for weak private keys leaves behind (393216 entries for one key)
+      if far_d is None:
+        far_d = rng.randrange(2 ** 200, 2 ** 250)
+      arts[slot] = gen.ec_key(rng, slot, 'secp256r1', d=far_d if c == 'farA' else far_d + rng.randrange(5000, 300000), cls='healthy')
     elif c in ('closeA', 'closeB'):
       if close_d is None:
         close_d = rng.randrange(2 ** 200, 2 ** 250)
@@ -461,7 +477,7 @@ def run_scenario(args):
             a.proto.ParseFromString(data)
     for ci, call in enumerate(hist):
       batch = [a for slot in call['batch'] for a in groups[slot]]
-      if kind == 'ecdsa' and len(batch) > 1 and rng.random() < 0.5:
+      if kind == 'ecdsa' and len(batch) > 1 and not call.get('keep_order') and rng.random() < 0.5:
         rng.shuffle(batch)          # interleave issuers
       protos = [a.proto for a in batch]
       crit = crit_for(kind, batch, max_diff)
